@@ -290,3 +290,31 @@ def reclaim_projection(trace, job):
                    "dropok": 1 if en.get("drop_ok", True) else 0})
     proto = 1 if (job.get("kind") == "map" and not job.get("threads_os")) else 0
     return {"id": trace["id"], "proto": proto, "ev": ev}
+
+
+def rb_projection(trace, job):
+    """tree-bin dumps of every quiescent observation + comparison counts of lookups -> Trace_RB input"""
+    ev = []
+    last = None
+    for e in trace["ev"]:
+        k = e.get("e")
+        if k in ("obs", "quiescent"):
+            sn = e["o"].get("snap")
+            if not sn:
+                continue
+            last = sn
+            for t in sn.get("tables", []):
+                for b in t["bins"]:
+                    if b["kind"] == "tree":
+                        ev.append({"e": "tree", "root": b["root"], "first": b["first"],
+                                   "inorder": b["inorder"] if b["inorder"] is not None else [],
+                                   "nodes": [{f: n[f] for f in ("n", "k", "h0", "h1", "h2", "next", "prev", "parent", "left", "right", "red")} for n in b["nodes"]]})
+        elif k == "ret" and "cmps" in e and last is not None:
+            ts = last.get("tables") or []
+            if not ts:
+                continue
+            tlen = ts[0]["len"]
+            for kk, cnt, found in e["cmps"]:
+                b = ts[0]["bins"][_hash_of(job, kk) & (tlen - 1)]
+                ev.append({"e": "cmp", "n": len(b.get("nodes", [])), "cnt": cnt, "tlen": tlen})
+    return {"id": trace["id"], "ev": ev}
